@@ -79,10 +79,11 @@ def _classify(ctx, what, env, runs, lockstep, dist, distinct, samples, base):
                 dist["replay_ok"] += 1
             else:
                 dist["replay_diverge"] += 1
-                ctx.broke("correspondence", "E-CONC lock-step c08 what=%s seed=%d" % (what, r["seed"]), "%s\n%s" % (r["replay"], text))
+                if dist["replay_diverge"] <= 5:   # keep looking for a failing input, but do not repeat the same divergence
+                    ctx.broke("correspondence", "E-CONC lock-step c08 what=%s seed=%d" % (what, r["seed"]), "%s\n%s" % (r["replay"], text))
         if len(samples) < 1 and "slept" in feats and "cas_lost_to_seal" in feats:
             samples.append(r["lines"][:80])
-        if len(ctx.failing) > 8 or len(ctx.broken) - base > 8:
+        if len(ctx.failing) > 8:
             return False
     return True
 
